@@ -339,6 +339,11 @@ class DefaultOperatorResolver(OperatorResolver):
             )
 
         def power(arg: OrderedSet[Term], power: OrderedSet[Term]) -> OrderedSet[Term]:
+            if not power:
+                raise exc_for_token(
+                    Token(),
+                    "The right-hand argument of `**` must be a positive integer.",
+                )
             power_term = next(iter(power))
             if (
                 not len(power_term.factors) == 1
